@@ -567,3 +567,42 @@ PROPS['C09'] = dict(
           "several versions of a key"),
     assumptions=['K <= 2032 (fan-out >= 3): hypothesis of the theorems; the property range is 1..1000'],
 )
+
+
+def filter_features(lines):
+    f = set()
+    for l in lines:
+        t = l.split()
+        if t[0] == 'cfg':
+            for tok in t[1:]:
+                if tok.startswith(('group=', 'bloom=', 'key=')):
+                    f.add(tok)
+        elif t[0] in ('bloom', 'bloom2'):
+            f.add('bloom ' + t[1] + (' k=' + t[3] + ' maxbits=' + t[4] if t[1] == 'new' else ''))
+        elif t[0] in ('offload',):
+            f.add('offload level ' + t[2])
+        elif t[0] in ('close_active', 'restore_active', 'restart', 'settle', 'force'):
+            f.add('op:' + t[0])
+        elif t[0] == 'd':
+            f.add('delete')
+    return f
+
+
+PROPS['C10'] = dict(
+    gen=lambda rng, tier: gen.filter_scenario(rng, size=tier),
+    p_cmds={'cf', 'cfs', 'c', 'bloom', 'bloom2'},
+    oracle_cmds={'cf', 'cfs', 'c', 'states'},
+    impl_only_cmds={'cf', 'cfs'},      # false positives are allowed; only the Spec oracle (no false negative) judges them
+    count={'quick': 120, 'thorough': 1500},
+    nontrivial=lambda lines: any(l.startswith('offload') for l in lines) or any(l.startswith('restore_active') for l in lines),
+    features=filter_features,
+    rule=("part 1: pearl::Bloom driven directly - configs (elements, hashers 0..4, max bits incl. 0, 64, 65, 127, 100000), "
+          "3-30 adds of keys of 1..33 bytes into two filters, membership answers, serialized image (CRC-32C), merge, probe of "
+          "the serialized image through a BloomDataProvider, off-load, reload - every output compared with the Lean model "
+          "that computes bit positions with its aHash port; part 2: storage histories (group size 2..9, bloom configs incl. "
+          "zero sizes and 8M bits) with close/restore/create/force/delete-in-closed/settle/offload(level 0..2)/restart and "
+          "check_filters + check_filter + contains for every key after every step; the oracle flags any 'definitely absent' "
+          "for a key that has a record; non-trivial = an offload or a restore occurs"),
+    assumptions=['bits_count comes from an f64 formula and is taken from the implementation as an input of the model',
+                 'storage-level filter answers are judged by the no-false-negative oracle; bit-exact comparison is done on the Bloom type'],
+)
